@@ -181,8 +181,13 @@ pub fn run(thorough: bool) -> Report {
                         }
                         (CallResult::Err(k, _), _) => Some(format!("unexpected error {}", k)),
                         (CallResult::Ok, x) if x == 0.0 => {
+                            let v: f64 = s.printed().trim().parse().unwrap_or(f64::NAN);
                             if after != before {
                                 Some("RND(0) changed the generator state".into())
+                            } else if !(v >= 0.0 && v < 1.0) {
+                                // whatever "the previous value" is before any positive call, every
+                                // value of the sequence lies in [0, 1)
+                                Some(format!("RND(0) returned {} which is outside [0,1)", s.printed().trim()))
                             } else if stepped
                                 && s.printed() != format!("{}\n", lcg_value(model))
                             {
